@@ -107,10 +107,17 @@ def run_case(spec, j):
   idx = _test_tuples(rng, X, ds['y'], size, spec['nt'])
   formed = X[idx]
 
+  # query tuples in float64, float32 or the dtype of the data: every relation
+  # below compares outputs for the *same* input array, so it stays exact
+  qdt = [np.float64, np.float32, None][spec['qseed'] % 3]
+
   def arg(ix):
-    return ix if prep else X[ix]
+    if prep:
+      return ix
+    return X[ix] if qdt is None else X[ix].astype(qdt)
   T = arg(idx)
-  det = {'est': name, 'params': spec.get('params'), 'prep': prep}
+  det = {'est': name, 'params': spec.get('params'), 'prep': prep,
+         'query_dtype': str(np.dtype(qdt)) if qdt and not prep else 'as-data'}
   key = (name, repr(spec.get('params')), spec['ds']['seed'], prep)
   with Quiet():
     if size == 2:
